@@ -519,9 +519,14 @@ func (f *FrameV1) SetAppendixData(appendix []byte) error {
 		f.data = f.data[:origDataSize]
 		return errors.New("appendix data too big")
 
-	case len(appendix) > len(f.data)-f.appendixIndex:
+	case len(appendix) > len(f.data)-f.appendixIndex-f.requiredOverhead():
+		// The current pooled slice is too small, move to a bigger one.
 		f.data = f.data[:origDataSize]
-		return errors.New("not enough space for appendix")
+		if err := f.growPooledSlice(f.appendixIndex + len(appendix)); err != nil {
+			return err
+		}
+		f.data = f.data[:cap(f.data)]
+		fallthrough
 
 	default:
 		// Write new appendix.
@@ -533,6 +538,39 @@ func (f *FrameV1) SetAppendixData(appendix []byte) error {
 
 		return nil
 	}
+}
+
+// growPooledSlice moves the frame to a pooled slice that can hold the given
+// amount of frame data in addition to the frame margins.
+func (f *FrameV1) growPooledSlice(dataSize int) error {
+	if f.builder == nil {
+		return errors.New("frame has no builder")
+	}
+
+	// Get bigger slice.
+	ps := f.builder.GetPooledSlice(f.psDataOffset + dataSize + f.requiredOverhead())
+	if ps == nil {
+		return errors.New("not enough space for appendix")
+	}
+
+	// Copy frame (including the offset margin) and switch to the new slice.
+	copy(ps, f.pooledSlice[:f.psDataOffset+len(f.data)])
+	if f.pooledSlice != nil {
+		f.builder.ReturnPooledSlice(f.pooledSlice)
+	}
+	f.data = ps[f.psDataOffset : f.psDataOffset+len(f.data)]
+	f.pooledSlice = ps
+	return nil
+}
+
+// requiredOverhead returns the overhead margin that must stay available
+// after the frame data.
+func (f *FrameV1) requiredOverhead() int {
+	if f.builder == nil {
+		return 0
+	}
+	_, overhead := f.builder.FrameMargins()
+	return overhead
 }
 
 // FrameDataWithMargins returns the whole frame, including the given offset and overhead.
